@@ -5,10 +5,15 @@ import numpy as np
 from hypothesis import strategies as st
 from threadpoolctl import threadpool_limits
 
-from vf.harness import Clause, Info, require, Violation
+from vf.harness import Clause, Info, require, Violation, Skip
 from vf import childproc
 
 from enspara.geometry import libdist
+# a process that uses the kernels has the rest of the library loaded (clustering imports them next to the MSM and
+# information-theory extensions): import those too, they share the process-wide floating-point environment
+import enspara.msm            # noqa: F401,E402
+import enspara.info_theory    # noqa: F401,E402
+import enspara.cluster        # noqa: F401,E402
 
 PROPERTY = "C13"
 LEVEL = "exploration"
@@ -428,10 +433,98 @@ def run_wide(case):
                 key=[case["kernel"], dt, n, d, case["seed"], case["threads"], case["xlayout"]])
 
 
+# ---------------------------------------------------------------------------
+# thousands of rows in a non-C layout (seeded): rows beyond any internal block of rows
+
+@st.composite
+def many_rows_case(draw):
+    kernel = draw(st.sampled_from(list(KERNELS)))
+    return {"kernel": kernel, "dtype": draw(st.sampled_from(KERNELS[kernel])), "n": draw(st.sampled_from([4095, 4096, 4097, 5000, 10007])),
+            "d": draw(st.integers(1, 6)), "seed": draw(st.integers(0, 2 ** 31 - 1)), "threads": draw(st.sampled_from([1, 3, 16])),
+            "xlayout": draw(st.sampled_from(["F", "F", "colstride", "rowstride", "negative", "C"])),
+            "out": draw(st.sampled_from(["none", "fresh"]))}
+
+
+def run_many_rows(case):
+    fn = getattr(libdist, case["kernel"])
+    rng = np.random.RandomState(case["seed"])          # seed drawn by Hypothesis
+    n, d, dt = case["n"], case["d"], case["dtype"]
+    if dt.startswith("float"):
+        V = (rng.randn(n, d) * 50).astype(dt)
+    else:
+        V = rng.randint(max(int(np.iinfo(dt).min), -100), min(int(np.iinfo(dt).max), 100) + 1, size=(n, d)).astype(dt)
+    V[:, 0] = (np.arange(n) % 97).astype(dt)             # every row identifiable by position
+    v = V[n // 2].copy()
+    X = lay_X(V, case["xlayout"])
+    ref = reference(case["kernel"], V, v) if not dt.startswith("float") or n <= 0 else None
+    if ref is None:
+        Xd, yd = V.astype(np.float64), v.astype(np.float64)
+        ref = {"euclidean": lambda: np.sqrt(((Xd - yd) ** 2).sum(axis=1)), "manhattan": lambda: np.abs(Xd - yd).sum(axis=1),
+               "hamming": lambda: (Xd != yd).mean(axis=1)}[case["kernel"]]()
+    out = np.full(n, 7.5) if case["out"] == "fresh" else None
+    with threadpool_limits(limits=case["threads"], user_api="openmp"):
+        r = fn(X, v) if out is None else fn(X, v, out=out)
+    require(isinstance(r, np.ndarray) and r.dtype == np.float64 and r.shape == (n,), "result is not a 1-D float64 array of length n")
+    rtol = 1e-5 if dt == "float32" else 1e-12
+    bad = ~(np.abs(r - ref) <= rtol * np.maximum(np.abs(ref), np.abs(r)) + 1e-300)
+    require(not bad.any(), "kernel result differs from reference on thousands of rows", kernel=case["kernel"], dtype=dt, n=n,
+            layout=case["xlayout"], n_bad=int(bad.sum()), first_bad_row=int(np.argmax(bad)), got=r[bad][:3].tolist(),
+            want=ref[bad][:3].tolist())
+    return Info(n > 4096 and case["xlayout"] != "C", ["rows_n=%d" % n, "rows_layout=" + case["xlayout"], "rows_kernel=" + case["kernel"]],
+                key=[case[k_] for k_ in sorted(case)])
+
+
+# ---------------------------------------------------------------------------
+# denormal inputs: the kernels compute in IEEE double precision - values below the normal range are numbers, not zeros
+# (and no part of the library may switch the process to flush-to-zero arithmetic)
+
+@st.composite
+def denormal_case(draw):
+    return {"kernel": draw(st.sampled_from(["euclidean", "manhattan"])), "dtype": draw(st.sampled_from(["float32", "float64"])),
+            "ks": draw(st.lists(st.integers(1, 2 ** 20), min_size=1, max_size=12)), "threads": draw(st.sampled_from([1, 2, 16])),
+            "sign": draw(st.sampled_from([1, -1]))}
+
+
+def run_denormal(case):
+    if case["kernel"] == "euclidean" and case["dtype"] == "float64":
+        # the SQUARE of a float64 denormal is below every representable number: the 2-norm legitimately underflows
+        raise Skip("square of a float64 denormal underflows in exact IEEE arithmetic too")
+    fn = getattr(libdist, case["kernel"])
+    ks = case["ks"]
+    if case["dtype"] == "float32":
+        X = np.array(ks, dtype=np.uint32).view(np.float32).reshape(-1, 1).copy()       # k * 2**-149, built from bit patterns
+        expo = -149
+    else:
+        X = np.array(ks, dtype=np.uint64).view(np.float64).reshape(-1, 1).copy()       # k * 2**-1074
+        expo = -1074
+    if case["sign"] < 0:
+        X = -X
+    y = np.zeros(1, dtype=case["dtype"])
+    with threadpool_limits(limits=case["threads"], user_api="openmp"):
+        r = fn(X, y)
+    got_bits = np.asarray(r, dtype=np.float64).view(np.uint64).tolist()
+    # |x - 0| = k * 2**expo exactly; as float64 bit pattern: for float64 denormals the pattern is k itself, for float32
+    # denormals it is the normal double ldexp(k, -149) (computed with integer arithmetic only)
+    want_bits = []
+    for k in ks:
+        if expo == -1074:
+            want_bits.append(int(k))
+        else:
+            e = k.bit_length() - 1                     # k = m * 2**e with 1 <= m < 2
+            mant = (k << (52 - e)) & ((1 << 52) - 1)
+            want_bits.append(((e + expo + 1023) << 52) | mant)
+    require(got_bits == want_bits, "a distance below the normal floating-point range is not returned exactly (flushed to "
+            "zero / rounded)", kernel=case["kernel"], dtype=case["dtype"], got=[hex(b) for b in got_bits][:4],
+            want=[hex(b) for b in want_bits][:4], ks=ks[:4])
+    return Info(True, ["denormal_dtype=" + case["dtype"], "denormal_kernel=" + case["kernel"]])
+
+
 CLAUSES = [
     Clause("values", valid_case(), run_values, quick=1600, thorough=24000),
     Clause("values_large", valid_case(max_n=400, max_d=33), run_values, quick=40, thorough=1600),
     Clause("wide_rows", wide_case(), run_wide, quick=400, thorough=4000),
+    Clause("many_rows_layouts", many_rows_case(), run_many_rows, quick=40, thorough=600),
+    Clause("denormal_inputs", denormal_case(), run_denormal, quick=200, thorough=3000),
     Clause("invalid_raises", invalid_batch, run_invalid, quick=12, thorough=160),
 ]
 
